@@ -88,6 +88,22 @@ public:
     static const size_t inssort_threshold = 8;
 };
 
+// the boolean switches of PS5ParametersDefault, each flipped once over the tiny thresholds
+class ParamsNoSeqSS : public ParamsTiny { public: static const bool enable_sequential_sample_sort = false; };   // M
+class ParamsNoMkqs : public ParamsTiny { public: static const bool enable_sequential_mkqs = false; };           // S
+class ParamsNoPar : public ParamsTiny { public: static const bool enable_parallel_sample_sort = false; };       // P
+class ParamsRest : public ParamsTiny { public: static const bool enable_rest_size = true; };                    // R
+class ParamsNoShare : public ParamsTiny { public: static const bool enable_work_sharing = false; };             // W
+// a narrower key type
+class ParamsKey32 : public ssd::PS5ParametersDefault {                                                          // K
+public:
+    typedef std::uint32_t key_type;
+    static const unsigned TreeBits = 2;
+    using Classify = ssd::SSClassifyTreeCalcUnrollInterleave<key_type, TreeBits>;
+    static const size_t smallsort_threshold = 16;
+    static const size_t inssort_threshold = 4;
+};
+
 class ParamsSmall : public ssd::PS5ParametersDefault {
 public:
     static const unsigned TreeBits = 3;
@@ -145,12 +161,24 @@ int main(int argc, char** argv) {
                 else if (params == "U") sort_c<ParamsTinyU>(ptrs.data(), n, lp);
                 else if (params == "V") sort_c<ParamsSmall>(ptrs.data(), n, lp);
                 else if (params == "E") sort_c<ParamsTinyE>(ptrs.data(), n, lp);
+                else if (params == "M") sort_c<ParamsNoSeqSS>(ptrs.data(), n, lp);
+                else if (params == "S") sort_c<ParamsNoMkqs>(ptrs.data(), n, lp);
+                else if (params == "P") sort_c<ParamsNoPar>(ptrs.data(), n, lp);
+                else if (params == "R") sort_c<ParamsRest>(ptrs.data(), n, lp);
+                else if (params == "W") sort_c<ParamsNoShare>(ptrs.data(), n, lp);
+                else if (params == "K") sort_c<ParamsKey32>(ptrs.data(), n, lp);
                 else sort_c<ssd::PS5ParametersDefault>(ptrs.data(), n, lp);
             } else {
                 if (params == "T") sort_s<ParamsTiny>(sstr.data(), n, lp);
                 else if (params == "U") sort_s<ParamsTinyU>(sstr.data(), n, lp);
                 else if (params == "V") sort_s<ParamsSmall>(sstr.data(), n, lp);
                 else if (params == "E") sort_s<ParamsTinyE>(sstr.data(), n, lp);
+                else if (params == "M") sort_s<ParamsNoSeqSS>(sstr.data(), n, lp);
+                else if (params == "S") sort_s<ParamsNoMkqs>(sstr.data(), n, lp);
+                else if (params == "P") sort_s<ParamsNoPar>(sstr.data(), n, lp);
+                else if (params == "R") sort_s<ParamsRest>(sstr.data(), n, lp);
+                else if (params == "W") sort_s<ParamsNoShare>(sstr.data(), n, lp);
+                else if (params == "K") sort_s<ParamsKey32>(sstr.data(), n, lp);
                 else sort_s<ssd::PS5ParametersDefault>(sstr.data(), n, lp);
             }
 #ifdef USE_SHIM
